@@ -30,10 +30,14 @@ def make_judge(res):
     return mutjudge.make_judge(res, "C03", UPDATES, "update")
 
 
-def profile():
+def profile(h=0):
     p = Profile(update=40, update_all=10, remove=0, remove_all=0, drop_measurement=0, insert=25, insert_multiple=5, reindex=6, reopen=4)
     p.getter_probes = True
     p.n_random_probes = 3
+    if h % 8 == 5:
+        p.max_rows = 45
+        p.max_time_probes = 30
+        p.min_ops, p.max_ops = 4, 10
     p.probe_every = 2
     return p
 
@@ -87,7 +91,7 @@ def run(res, tier, seed, shard, nshards):
         for ci, cfg in enumerate(CONFIGS):
             for h in range(N_HIST[tier]):
                 rng = rng_for("C03", tier, seed, shard, ci, h)
-                s = Runner(res, cfg, scratch, rng, profile(), judge).run()
+                s = Runner(res, cfg, scratch, rng, profile(h), judge).run()
                 if h == 0 and shard == 0 and ci in (1, 2):
                     res.sample({"config": cfg_name(cfg), "first_ops": s.log[:5]})
     for b in contracts.drain(res):
@@ -102,6 +106,7 @@ def run(res, tier, seed, shard, nshards):
     res.require("update.expected_error")
     res.require("unselected_rows_compared")
     res.require("later_reads")
+    res.require("histories_big")
     res.assumptions += [
         "static falsy arguments ('' / {}) are not generated except the all-empty call (documented ValueError)",
         "updater callables come from a fixed deterministic registry; <= 12 rows; process TZ = UTC",
